@@ -59,7 +59,7 @@ META = {
     ),
     "bound": {
         "quick": "pool of 12 colliding documents (222 operations); bfs over the 72 whole-document operations to closure (cap depth 8); all histories of length 2 "
-                 "whose first call is a whole-document call with caching on and whose second is any operation except single pages with caching off (36 x 148); every whole-document operation after a document that interns 34000 distinct names; aborted calls: 7 documents in which an indirect array element of a font or form (FontBBox, Widths, FontMatrix, BBox, Matrix; Type 3 and Type 1) is a malformed object, so that an exception escapes from the middle of the library, each x {text, pages, xml} x caching, followed by all 18 operations on their healthy twin with the same object numbers (and by the pool's whole-document operations after the first); API objects: for each of 15 documents (pool, a navigation document with page labels/outlines/destinations, two encrypted ones) x caching, one PDFDocument + resource manager + interpreters + aggregator + TextConverter reused for every ordered pair of calls from {get_page_labels, create_pages, two interleaved create_pages, get_outlines, get_dest x5, layout of all pages, text of all pages}, each answer compared with the answer on fresh objects, and layout/text with extract_pages/extract_text; encrypted documents (RC4-40, RC4-128, V4/V2, AESV2, AESV3 x 2 file keys, same plaintext and object numbers): every ordered pair A then B x {text, pages, xml; text with caching off}, plus interleaved iterators of the two keys of each family; all 20 interleavings of the 3+3 "
+                 "whose first call is a whole-document call with caching on and whose second is any operation except single pages with caching off (36 x 148); every whole-document operation after a document that interns 34000 distinct names; three more documents judged by caching on == off and single pages == together only (unterminated literal string in page 1's font; encrypted top-level string objects shared by two fonts; form invoking a nested form with an invalid BBox); aborted calls: 7 documents in which an indirect array element of a font or form (FontBBox, Widths, FontMatrix, BBox, Matrix; Type 3 and Type 1) is a malformed object, so that an exception escapes from the middle of the library, each x {text, pages, xml} x caching, followed by all 18 operations on their healthy twin with the same object numbers (and by the pool's whole-document operations after the first); API objects: for each of 15 documents (pool, a navigation document with page labels/outlines/destinations, two encrypted ones) x caching, one PDFDocument + resource manager + interpreters + aggregator + TextConverter reused for every ordered pair of calls from {get_page_labels, create_pages, two interleaved create_pages, get_outlines, get_dest x5, layout of all pages, text of all pages}, each answer compared with the answer on fresh objects, and layout/text with extract_pages/extract_text; encrypted documents (RC4-40, RC4-128, V4/V2, AESV2, AESV3 x 2 file keys, same plaintext and object numbers): every ordered pair A then B x {text, pages, xml; text with caching off}, plus interleaved iterators of the two keys of each family; all 20 interleavings of the 3+3 "
                  "next() calls of every document pair incl. a document with itself (78 pairs; caching on, for a document with itself also off/off and on/off); "
                  "all 3- and 4-subsets of a 3x3 grid x 2 boxes_flow",
         "thorough": "same pool; bfs over all 222 operations to closure; the 34000-names prefix as quick; encrypted documents: all ordered triples (text) in addition to the pairs; API objects: all ordered triples of calls; aborted calls: also two different aborted documents in a row, and the pool operations after every one; all histories of length 3 over the 36 whole-document calls followed by "
@@ -339,6 +339,7 @@ def build_pool() -> dict:
     pool.update(_build_crypt())
     pool["nav"] = _build_nav()
     pool["twin"] = _build_abort()
+    pool["poison"], pool["encstr"], pool["nestbad"] = _build_poison(), _build_encstr(), _build_nestbad()
     for site in ABORT_SITES:
         pool["abort-" + site] = _build_abort(site)
     # -- distance ties between text boxes
@@ -498,6 +499,67 @@ def _build_nav():
     return d.write(cat, info=info)
 
 
+# documents judged only by "caching on == off" and "pages one at a time == together" (ref shard): cheap, no call histories
+REF_ONLY_DOCS = ["poison", "encstr", "nestbad"]
+
+
+def _build_poison():
+    """Page 1's font object holds a literal string with an unbalanced '(' : the object cannot be read (no exception in the
+    non-strict mode), but nothing of that failure may reach the objects read afterwards (page 2's font has strings too)."""
+    from mc.pdfgen import Raw
+
+    bad = Raw(b"<< /Type /Font /Subtype /Type1 /BaseFont /Helvetica /Note (oops( ) >>")
+    good = {"Type": N("Font"), "Subtype": N("Type1"), "BaseFont": N("Helvetica"), "Note": b"x (balanced) y",
+            "Encoding": {"Type": N("Encoding"), "Differences": [65, N("B")]}}
+    return _two_pages({"F1": bad}, _text("F1", 12, 20, 100, b"A"), {"F1": good}, _text("F1", 12, 20, 100, b"A (b) \\( c"))
+
+
+def _build_encstr():
+    """RC4-encrypted; two CID fonts (one per page) whose /Registry and /Ordering are references to the SAME two indirect
+    string objects: an indirect object whose top-level value is a string is deciphered once, however often it is used."""
+    import mc.refs.security as S
+
+    d = Doc()
+    cat, pages, p1, p2 = d.reserve(), d.reserve(), d.reserve(), d.reserve()
+    reg, ordr, arr = d.add(b"Adobe"), d.add(b"Japan1"), d.add([b"Adobe", b"Japan1"])
+
+    def t0():
+        f = _cidfont("Foo", "Identity-H")
+        f["DescendantFonts"][0]["CIDSystemInfo"] = {"Registry": reg, "Ordering": ordr, "Supplement": 0}
+        f["DescendantFonts"][0]["Note"] = arr
+        return d.add(f)
+
+    f1, f2 = t0(), t0()
+    s1 = d.add(Stream({}, _text("F1", 12, 20, 100, HexStr(b"\x00\x22\x03\x4b"))))
+    s2 = d.add(Stream({}, _text("F1", 12, 20, 100, HexStr(b"\x00\x23\x03\x4d"))))
+    d.set(cat, {"Type": N("Catalog"), "Pages": pages})
+    d.set(pages, {"Type": N("Pages"), "Kids": [p1, p2], "Count": 2, "MediaBox": [0, 0, 612, 792]})
+    d.set(p1, {"Type": N("Page"), "Parent": pages, "Resources": {"Font": {"F1": f1}}, "Contents": s1})
+    d.set(p2, {"Type": N("Page"), "Parent": pages, "Resources": {"Font": {"F1": f2}}, "Contents": s2})
+    ident = hashlib.md5(b"verif-c12-encstr").digest()
+    h = S.Handler(S.Cfg(1, 2, 40, "RC4"), "", "owner", -44, ident, salt="c12-encstr")
+    return S.write_pdf(S.Plain(dict(d.objs), cat, None, (ident, ident)), h)[0]
+
+
+def _build_nestbad():
+    """Form A draws text and invokes form B, whose /BBox is invalid (three numbers): B is skipped, and that must not keep A
+    (or anything) from being drawn again by the same page or by the next page."""
+    d = Doc()
+    cat, pages, p1, p2, fa, fb = d.reserve(), d.reserve(), d.reserve(), d.reserve(), d.reserve(), d.reserve()
+    f = d.add({"Type": N("Font"), "Subtype": N("Type1"), "BaseFont": N("Helvetica")})
+    res = {"Font": {"F1": f}, "XObject": {"A": fa, "B": fb}}
+    d.set(fa, Stream({"Type": N("XObject"), "Subtype": N("Form"), "BBox": [0, 0, 200, 200], "Resources": res},
+                     _text("F1", 12, 20, 100, b"X") + b"/B Do\n"))
+    d.set(fb, Stream({"Type": N("XObject"), "Subtype": N("Form"), "BBox": [0, 0, 10], "Resources": res}, _text("F1", 12, 20, 50, b"Y")))
+    s1 = d.add(Stream({}, b"q /A Do Q\nq 1 0 0 1 0 -40 cm /A Do Q\n"))
+    s2 = d.add(Stream({}, b"q /A Do Q\n"))
+    d.set(cat, {"Type": N("Catalog"), "Pages": pages})
+    d.set(pages, {"Type": N("Pages"), "Kids": [p1, p2], "Count": 2, "MediaBox": [0, 0, 612, 792], "Resources": res})
+    d.set(p1, {"Type": N("Page"), "Parent": pages, "Contents": s1})
+    d.set(p2, {"Type": N("Page"), "Parent": pages, "Contents": s2})
+    return d.write(cat)
+
+
 # documents that make an exception escape from the middle of a library call, and their healthy twin (same object numbers)
 ABORT_SITES = ["FontBBox", "Widths", "FontMatrix", "FormBBox", "FormMatrix", "Type1Widths", "Type1FontBBox"]
 
@@ -611,6 +673,7 @@ def subsets(d):
 
 OPS = [(d, k, c, s) for d in DOCS for k in KINDS for c in (True, False) for s in subsets(d)]
 WHOLE_OPS = [(d, k, True, None) for d in DOCS for k in KINDS]
+REF_ONLY_OPS = [(d, k, c, s) for d in REF_ONLY_DOCS for k in KINDS for c in (True, False) for s in (None, 0, 1)]
 
 
 # ============================================================ execution (children)
@@ -1011,7 +1074,7 @@ sys.stdout.buffer.write(pickle.dumps({op: m.rhash(v) for op, v in r.items()}))
 
 
 def shard_ref(st):
-    R = refs()
+    R = refs(OPS + REF_ONLY_OPS)
     st.states += 1
     # (a) really fresh interpreters, two hash seeds
     for seed in ("0", "4242"):
@@ -1028,7 +1091,7 @@ def shard_ref(st):
                              rhash(R[op]), fresh[op], "result in a fresh interpreter differs from the result in a forked import-only process")
         st.traces += 1
     # (b) caching on == off
-    for d in DOCS:
+    for d in DOCS + REF_ONLY_DOCS:
         for k in KINDS:
             for s in subsets(d):
                 a, b = R[(d, k, True, s)], R[(d, k, False, s)]
@@ -1038,7 +1101,7 @@ def shard_ref(st):
                     st.violation(f"C12/caching-changes-result:{d}:{k}", {"family": "caching", "docs": {d: pool()[d]}, "op": [d, k, True, s], "history": []},
                                  fd.get("expected", fd), fd.get("observed", fd), "caching=True and caching=False give different results")
     # (c) pages one at a time == together
-    for d in DOCS:
+    for d in DOCS + REF_ONLY_DOCS:
         for k in KINDS:
             for c in (True, False):
                 whole, singles = R[(d, k, c, None)], [R[(d, k, c, s)] for s in subsets(d)[1:]]
